@@ -45,11 +45,30 @@ def is_write_open(call: ast.Call) -> bool:
     return m is None or any(ch in m for ch in "wax+")
 
 
+FOLD = None   # set by facts(ctx): (module, expr) -> constant value or None
+
+
+def _fold(mod, x):
+    if FOLD is None or mod is None:
+        return None
+    try:
+        return FOLD(mod, x)
+    except Exception:
+        return None
+
+
+def _tmp_const(v) -> bool:
+    return isinstance(v, str) and (v.endswith(".tmp") or v.endswith(".lock") or v.startswith(".tmp"))
+
+
 def expr_is_tmp_path(du: Optional[DefUse], n: Node, e: ast.AST, depth: int = 0) -> bool:
-    """Is path expression *e* (evaluated at n) built with a ``.tmp``-like suffix / tempfile?"""
+    """Is path expression *e* (evaluated at n) built with a ``.tmp``-like suffix / tempfile?
+    Module-level string constants (``TMP_SUFFIX = ".tmp"``) are folded."""
+    mod = du.cfg.fi.module if du is not None else None
     for x in ast.walk(e):
-        if isinstance(x, ast.Constant) and isinstance(x.value, str) and (
-                x.value.endswith(".tmp") or x.value.endswith(".lock") or x.value.startswith(".tmp")):
+        if isinstance(x, ast.Constant) and _tmp_const(x.value):
+            return True
+        if isinstance(x, (ast.Name, ast.Attribute)) and isinstance(getattr(x, "ctx", None), ast.Load) and _tmp_const(_fold(mod, x)):
             return True
         if isinstance(x, ast.Call):
             d = dotted(x.func) or ""
@@ -155,6 +174,8 @@ _FACTS = {}
 
 
 def facts(ctx) -> StoreFacts:
+    global FOLD
+    FOLD = ctx.P.try_fold
     f = _FACTS.get(id(ctx))
     if f is None:
         _FACTS.clear()
